@@ -16,6 +16,9 @@ func modifies(args ...any)  {}
 func assumes(args ...any)   {}
 func asserts(args ...any)   {}
 func flag(name string)      {}
+func reveal(names ...string) {}
+func only(clause string, labels ...string) {}
+func hide(clause string, labels ...string) {}
 func set(target any, v any) {}
 func setall(target any, v any) {}
 func havoc(target any)      {}
@@ -23,6 +26,8 @@ func havoc(target any)      {}
 func old[T any](x T) T                 { return x }
 func all[T any](f func(T) bool) bool   { panic("spec") }
 func ex[T any](f func(T) bool) bool    { panic("spec") }
+func upto[T any](n int, f func(T) bool) bool  { panic("spec") }
+func anyof[T any](n int, f func(T) bool) bool { panic("spec") }
 func imp(a, b bool) bool               { return !a || b }
 func iff(a, b bool) bool               { return a == b }
 func ifelse[T any](c bool, a, b T) T   { if c { return a }; return b }
